@@ -1,4 +1,7 @@
 """C04: decision protocol of the primal-dual interior-point LP/QP solver (src/program/solver.cpp)."""
+import os
+import sys
+sys.path.insert(0, os.path.dirname(os.path.abspath(__file__)))
 import astload
 from core import Fn, Target
 import hooks
@@ -207,6 +210,46 @@ TU = 'src/program/solver.cpp'
 FLT = 'solver_t::'      # one clang dump of solver.cpp serves every member function of solver_t and solver_t::program_t
 
 
+# ------------------------------------------------------------------------------------------------- dispatch (specs/C04/dispatch.h)
+DH = 'specs/C04/dispatch.h'
+DTYPES = [(r'^nano::program::linear_program_t$', 'struct nv_lprog'), (r'^nano::program::quadratic_program_t$', 'struct nv_qprog'),
+          (r'^nano::program::(equality|inequality|constraint)_t<', 'struct nv_constr'), (r'^std::optional<', 'struct nv_optvec')] + TYPES
+DCALLS = [(r'^ctor\|nano::program::solver_t::program_t\|void \(const (nano::program::)?linear_program_t &\)', 'program_from_lp_value({&0})'),
+          (r'^ctor\|nano::program::solver_t::program_t\|void \(const (nano::program::)?quadratic_program_t &\)', 'program_from_qp_value({&0})'),
+          # the six-argument constructor (by value: Q, c, A, b, G, h), also as the target of the delegating constructors
+          (r'^ctor\|nano::program::solver_t::program_t\|void \((nano::)?matrix_t, ', 'program_ctor({self}, {0}, {1}, {2}, {3}, {4}, {5})'),
+          (r'^ctor\|nano::tensor_t<nano::tensor_vector_storage_t, double, 2>\|void \(\)', 'nv_e_nomatrix()'),          # matrix_t{}
+          (r'^make_x0\|.*linear_program_t', 'make_x0_lp'), (r'^make_x0\|.*quadratic_program_t', 'make_x0_qp')] + CALLS
+DMEMBERS = [(r'^valid\|', 'constraint_valid'),
+            (r'^solve_without_inequality\|', 'nv_d_swo({self}, {&0}, {&1})'), (r'^solve_with_inequality\|', 'nv_d_swi({self}, {&0}, {&1}, {&2})'),
+            (r'^make_strictly_feasible\|', 'nv_make_strictly_feasible()'),
+            (r'^operator bool\|(const )?std::optional', 'nv_opt_has'), (r'^has_value\|(const )?std::optional', 'nv_opt_has'),
+            (r'^value\|(const )?std::optional', '{obj}.v')] + MEMBERS
+DCOMMON = dict(types=DTYPES, calls=DCALLS, members=DMEMBERS, hooks=HOOKS)
+
+
+def dispatch_targets():
+    kind = {'lp': 'linear_program_t', 'qp': 'quadratic_program_t'}
+    pt = astload.param_types
+    inst = lambda d: any(x.get('kind') == 'CXXThisExpr' and 'tensor_t<' in x.get('type', {}).get('qualType', '') for x in astload.walk(d))
+    # the member of the INSTANTIATED constraint_t<matrix_t, vector_t> (the dump also holds the template's own, type-dependent body)
+    valid = lambda: Fn('constraint_valid', TU, 'valid', flt='constraint_t', select=inst, self_struct='struct nv_constr', **DCOMMON)
+    pctor = lambda: Fn('program_ctor', TU, 'program_t', flt=FLT, select=lambda d: len(pt(d)) == 6, kinds=('CXXConstructorDecl',),
+                       self_struct='struct nv_program', **COMMON)
+    pfrom = lambda k: Fn(f'program_from_{k}', TU, 'program_t', flt=FLT, select=lambda d: len(pt(d)) == 1 and kind[k] in pt(d)[0],
+                         kinds=('CXXConstructorDecl',), self_struct='struct nv_program', **DCOMMON)
+    mx0 = lambda k: Fn(f'make_x0_{k}', TU, 'make_x0', flt='make_x0', select=lambda d: kind[k] in (astload.template_args(d) or [''])[0], **DCOMMON)
+    solve = lambda k, n: Fn(f'solve_{k}' + ('_x0' if n == 3 else ''), TU, 'solve', flt=FLT, select=lambda d: len(pt(d)) == n and kind[k] in pt(d)[0],
+                            self_struct='struct nv_solver', **DCOMMON)
+    out = [Target('constraint_valid', [valid()], DH)]
+    for k in ('lp', 'qp'):
+        out.append(Target(f'program_from_{k}', [pfrom(k), pctor()], DH, replace=['program_ctor']))
+        out.append(Target(f'make_x0_{k}', [mx0(k)], DH))
+        for n in (2, 3):
+            out.append(Target(f'solve_{k}' + ('_x0' if n == 3 else ''), [solve(k, n), pfrom(k), pctor(), mx0(k), valid()], DH, replace=['program_ctor']))
+    return out
+
+
 def smax_real_vcs():
     """::make_smax over the reals (back end B): for u > 0 componentwise the result lies in (0, 1] and keeps u + s * du >= 0 at every
     (ghost) index; every coefficient read is in bounds; the loop terminates.  IEEE double is treated as a real here."""
@@ -287,9 +330,11 @@ def build(tier):
         Target('solve_with_inequality_adv', [swi('solve_with_inequality_adv'), done_abs(), ctor()], H),
         Target('solve_with_inequality_res', [swi('solve_with_inequality_res'), done_abs(), ctor()], H),
         Target('solve_without_inequality', [swo(), ctor()], H),
-    ]
+    ] + dispatch_targets()
+    import realvcs
+    bounded, finfo = realvcs.build(tier)
     return {
-        'targets': targets, 'vcs': smax_real_vcs(),
+        'targets': targets, 'vcs': smax_real_vcs(), 'bounded': bounded, 'functions': finfo,
         'decided': [
             'solver_t::done: status\' == converged <=> program.feasible(state) && eta < eps && no residual norm (|rdual|, |rprim|) is >= eps; '
             'otherwise unbounded if feasible, unfeasible if not; nothing but m_status is written (for norms that are not NaN this is literally '
@@ -321,6 +366,31 @@ def build(tier):
             '(x, u, v) moved are refuted',
             '::make_smax over the reals (SMT): for u > 0 componentwise the result is in (0, 1] and u_g + result * du_g >= 0 at every index g; '
             'coefficient reads in bounds; loop variant',
+            'solver_t::solve dispatch (all four overloads, CBMC, numerics opaque): the inequality block alone selects the routine (m_ineq.valid() <=> '
+            'solve_with_inequality), which runs exactly once on the program_t built from the CALLER\'s blocks in their roles -- objective (Q or the empty '
+            'matrix, c), equalities (m_eq.m_A, m_eq.m_b) handed to reduce() BEFORE anything is scaled, inequalities (m_ineq.m_A, m_ineq.m_b), each pair '
+            'normalised by its own factor as in program_ctor -- the x0 overloads pass the caller\'s x0 and never call make_strictly_feasible, the others pass '
+            '::make_x0(program) (make_strictly_feasible() when it yields a point, else the zero vector of c.size()), and the state handed back is the state '
+            'the routine returned; the delegating constructors program_t(linear_program_t) / program_t(quadratic_program_t), both ::make_x0 instantiations '
+            'and constraint_t<matrix_t, vector_t>::valid ((A.size() > 0 && b.size() > 0) && A.rows() == b.size()) are under contract themselves',
+            'BOUNDED (n <= 3 variables, p <= 2 equalities, m <= 2 inequalities, LP and QP; unbounded real coefficients; quick tier: 6 shapes, thorough: all 27), '
+            'residual DEFINITIONS (specs/C04/residuals.py): program_t::update (both instantiations) computes, at exactly the (x, u, v) handed in, '
+            'fx == mufx (x\'Qx/2 + c\'x), eta == -u\'(Gx - h), rdual == Qx + c + G\'u + A\'v, rprim == Ax - b, rcent == -diag(u)(Gx - h) - (eta / (miu m)) 1 '
+            '(Boyd & Vandenberghe (11.53) with t = miu m / eta), leaves eta / rcent alone without inequalities and rprim without equalities, and writes nothing '
+            'else; solver_state_t::residual() == ||(rdual, rcent, rprim)||_2; solver_state_t::update stores in m_kkt exactly the largest of the five KKT tests '
+            '(infinity norms) at the stored (x, u, v) and writes nothing else',
+            'BOUNDED (same shapes), NORMALISATION (specs/C04/scaling.py): ::normalize returns d == max(min_norm, ||A||_F, ||b||_2) >= min_norm, divides BOTH A '
+            'and b by d, and the scaled rows describe the same feasible / strictly feasible set row by row (=, <=, <), the scaled objective the same order of '
+            'points; program_t(Q, c, A, b, G, h), walked initialiser by initialiser: m_mufx == M = max(1e-3, ||Q||_F, ||c||_2) of the CALLER\'s objective, each of '
+            '(Q, c), (A_r, b_r) (what reduce() left), (G, h) is normalised exactly once as a pair by a factor >= 1e-3 (default floor read from the source), same '
+            '(strictly) feasible sets, KKT matrix buffer blocks m_A\', m_A, 0; program_t::update run ON that program: the reported fx equals x\'Qx/2 + c\'x of the '
+            'program AS THE CALLER STATED IT, and mufx * rdual, dA * rprim, mufx * eta are the residuals of the caller\'s program at (x, (mufx / dG) u, (mufx / dA) v)',
+            'BOUNDED (same shapes), SEARCH DIRECTION (specs/C04/newton.py): program_t::solve (both instantiations) factorises exactly [[Q - hessvar, A\'], [A, 0]], '
+            'solves for (-rdual, -rprim), stores / returns that solution and keeps the off-diagonal blocks; one iteration of solve_with_inequality from an arbitrary '
+            'strictly feasible loop-head state assigns (dx, du, dv) that solve the Newton system of the residual map: Q dx + G\'du + A\'dv == -rdual, '
+            '-diag(u) G dx - diag(Gx - h) du == -rcent, A dx == -rprim, with exactly one KKT solve and without touching the iterate',
+            'BOUNDED (n <= 3, p <= 2), nano::program::reduce(A, b): without rows it returns false and touches nothing; otherwise [A | b] is decomposed as ONE '
+            'matrix, once, and A\' / b\' are the first n columns / the last column of the same reduced matrix (consistent split), returns true',
         ],
         'not_decided': [
             'all numeric tolerances of the property (1e-6 (1+|b|), objective gap vs f*), correctness of infeasible / unbounded detection, '
@@ -331,10 +401,16 @@ def build(tier):
             'make_smax in IEEE arithmetic: result > 0 (the quotient -u_i / du_i can underflow to +0; proved over the reals only)',
             'the size precondition of make_smax at its call site in solve_with_inequality (u and du both have m coefficients) needs Eigen size '
             'reasoning; there make_smax is an arbitrary side-effect-free double',
-            'program_t::solve / solver_state_t::update / solver_state_t::residual bodies (Eigen algebra): havoc of what they assign; of '
-            'program_t::update only the objective and the frame are decided, the residual formulas (eta, rdual, rprim, rcent) are not',
-            'reduce() (removal of dependent equality rows, src/program/util.cpp): havoc of (A, b)',
-            'solver_t::solve dispatch (program_t construction, reduction of dependent equalities, normalisation)',
+            'the residual definitions, the normalisation, the KKT system and the Newton step for GENERAL sizes and in floating point: they are checked over '
+            'the reals at n <= 3, p <= 2, m <= 2 only (bounded stand-ins, never counted as proved); inside the CBMC protocol targets program_t::solve / '
+            'solver_state_t::update / residual stay havoc of what they assign',
+            '::reduce(Ab) itself (Eigen::FullPivLU: the reduced rows span the same solution set and are independent; note that they are linear COMBINATIONS of '
+            'the caller\'s rows, not a subset, so the returned v are multipliers of the transformed rows) and nano::stack: assumed contracts',
+            'the multipliers (m_u, m_v) handed back are those of the NORMALISED, reduced program: the library does not un-scale them (caller\'s multipliers: '
+            '(mufx / dG) u, (mufx / dA) v for the reduced rows); the property\'s bound carries the factor M for this reason, nothing is refuted',
+            'a malformed inequality block (A.rows() != b.size(), or an empty one) is not valid(): solve() then silently ignores the inequalities and runs '
+            'solve_without_inequality (decided as the dispatch rule, outside the property\'s quantifier)',
+            'that the LDLT solution satisfies the KKT system to any accuracy, and that Gx - h < 0 holds at every loop head (numeric; the Newton obligations assume both)',
         ],
         'assumptions': [
             'Eigen / tensor operators are pure functions of their operands\' values (uninterpreted algebra over value identities); views (array(), '
@@ -357,6 +433,21 @@ def build(tier):
             'established here for the caller)',
             'logger calls have no effect on the modelled state (dropped, including the program.feasible(state) evaluated only for logging)',
             'solver_status enumerators are pairwise distinct (values copied from include/nano/solver/status.h)',
+            'dispatch targets: solve_with_inequality / solve_without_inequality are stubs that record the program / x0 they are handed and return an arbitrary '
+            'state (their contracts are the targets above); the six-argument program_t constructor is its contract (target program_ctor, now also: reduce() is '
+            'applied to the (A, b) handed in); linear_constrained_t::make_strictly_feasible returns an arbitrary optional vector; matrix_t{} is ONE fixed value '
+            '(the empty matrix); copies of vectors / matrices keep the value identity',
+            'bounded real obligations: double is treated as real; Eigen / nano tensor operators have their mathematical meaning and a right-hand side is '
+            'evaluated before it is assigned (closed list: docstrings of specs/C06/eig.py, specs/C01/linalg.py, specs/C04/progwp.py: + matrix.size(), '
+            'matrix.lpNorm<2>() = Frobenius norm, vector.lpNorm<Infinity>() = max |a_k|, block(r, c, nr, nc), col(k), asDiagonal(), M.array() /= s, assignment to an '
+            'owning tensor resizes it); std::sqrt / lpNorm<2> through sqrt(u)^2 == u, sqrt(u) >= 0 for u >= 0',
+            'bounded real obligations, stated preconditions: 1 < miu (registered domain), min_norm > 0 for ::normalize (obliged at its three call sites), '
+            'Gx - h < 0 componentwise at the loop head of solve_with_inequality (interior-point invariant), m_lmat as the constructor leaves it when '
+            'program_t::solve is entered (proved for the constructor, preserved by solve)',
+            'bounded real obligations, assumed contracts of dependencies: reduce(A, b) replaces (A, b) by SOME (A_r, b_r) with 1 <= p_r <= p rows (untouched for '
+            'p = 0); ::reduce(Ab) replaces Ab by some matrix with fewer or as many rows and the same columns; nano::stack(rows, cols, A, b) is [A | b] (shape '
+            'conditions obliged); Eigen::LDLT: compute(M) then solve(r) returns s with M s == r; the loop-head state of solve_with_inequality, the parameter '
+            'values and the contents of freshly allocated buffers are arbitrary',
         ],
         'trusted': [],
     }
@@ -373,6 +464,9 @@ def replay(rp):
     import replaylib
     out = {'reproduced': False, 'runs': []}
     tgt = rp['target']
+    if '/mut_C04_' in os.environ.get('NV_SCRATCH', '') or os.environ.get('NV_NO_NATIVE_REPLAY'):
+        out['skipped'] = 'canary-mutation run / NV_NO_NATIVE_REPLAY'       # mutation loops: the native drivers rebuild the library
+        return out
     scen = {'normalize': ['scale'], 'program_ctor': ['scale'], 'program_update_vec': ['scale'], 'program_update_expr': ['scale'],
             'solve_without_inequality': ['noineq'], 'solve_with_inequality_res': ['stale', '200']}
     if not tgt.startswith('solver_done') and tgt not in scen:
